@@ -2,7 +2,7 @@ SPEC = {
     "id": "C12",
     "props_module": "NDB.Props.C12",
     "corr_modules": ["NDB.Corr.C12"],
-    "theorems": ["C12_merge_stmt_idempotent", "C12_merge_idempotent", "C12_merge_nan_refuted", "C12_set_remove_algebra", "C12_create_frame", "C12_delete"],
+    "theorems": ["C12_merge_stmt_idempotent", "C12_merge_on_items", "C12_merge_rel_refuted", "C12_chain_set_remove", "C12_merge_idempotent", "C12_merge_nan_refuted", "C12_set_remove_algebra", "C12_create_frame", "C12_delete"],
     "allowed_axioms": [],
     "harness_pkg": "hx_update",
     "harness_bin": "c12",
@@ -19,14 +19,14 @@ SPEC = {
         "Rust harness harness/hx_update/src/bin/c12.rs (generator, dump through a fresh snapshot, independent Rust reference graph) and lib/vcheck.py",
     ],
     "assumptions": [
-        "statements: one update clause with a MATCH / WITH / UNWIND prefix and parameters, executed through PreparedQuery::execute_write or execute_mixed (the C API's entry point), chosen at random per statement, one transaction per statement; statements chaining several update clauses (SET ... REMOVE ..., DELETE ... SET ...) are outside the model (two fixed probes record K-C12-chained and K-C12-setafterdelete)",
-        "MERGE: node patterns (labels + property map, any number of UNWIND rows) and relationship patterns between two bound nodes (one row per statement: within one statement the executor tracks the relationships it created individually while the storage keeps one property map per (src,type,dst)); ON CREATE / ON MATCH SET on keys disjoint from the pattern keys",
+        "statements: one update clause, or a chain of two or three SET / REMOVE clauses (node properties, maps, labels to add), with a MATCH / WITH / UNWIND prefix and parameters, executed through PreparedQuery::execute_write or execute_mixed (the C API's entry point), chosen at random per statement, one transaction per statement; in a chain every node occurs in one row; REMOVE of labels inside a chain and DELETE ... SET chains are outside the model (a fixed probe records K-C12-setafterdelete)",
+        "MERGE: node patterns (labels + property map, any number of UNWIND rows) and relationship patterns between two bound nodes (any number of rows on one key; the executor's overlay of created relationships is modelled); ON CREATE / ON MATCH SET on keys disjoint from the pattern keys",
         "property values null/bool/int/float/string; a relationship key deleted earlier in the history is not created again (K-C06-eprops, a storage finding, would resurrect its properties)",
         "counters: the single u32 returned by execute_write (created / deleted entities, properties set or removed, label items), as the code counts them",
     ],
     "manifest": {
         "category": "proof",
-        "text": "Reference semantics of CREATE, MERGE (node patterns; relationship patterns between bound nodes), SET (node and relationship property, = map, += map, labels), REMOVE, DELETE / DETACH DELETE on evaluated operands, with the engine's change counts; relationships are identified by (src,type,dst) with a multiplicity and one shared property map, as the storage does. Proved for all graphs and operands: a repeated MERGE statement of any number of rows creates nothing, reports 0 and leaves the graph unchanged (given no ON CREATE / ON MATCH items and no NaN in the pattern; the NaN case is refuted by a witness), the SET/REMOVE algebra (SET then REMOVE = REMOVE, SET null = REMOVE, SET = map keeps exactly the map's non-null keys, += {} is the identity, read-back laws), CREATE adds exactly the counted nodes and changes nothing else, DELETE fails iff a target has a relationship, DETACH DELETE never fails, no relationship of a deleted node remains. Implementation = reference (graph dump and count after every statement of generated sequences) is the sampled part. Partial: MERGE with ON CREATE / ON MATCH items and relationship MERGE are not covered by the idempotence theorem (the harness repeats every generated MERGE, items included, and requires count 0 and unchanged sizes); statements chaining several update clauses (execute_mixed only) and map/REMOVE updates of relationship properties are not modelled.",
+        "text": "Reference semantics of CREATE, MERGE (node patterns; relationship patterns between bound nodes), SET (node and relationship property, = map, += map, labels), REMOVE, DELETE / DETACH DELETE and chains of SET / REMOVE clauses in one statement, on evaluated operands, with the engine's change counts; relationships are identified by (src,type,dst) with a multiplicity and one shared property map, as the storage does. Proved for all graphs and operands: a repeated MERGE statement of any number of rows creates nothing, reports 0 and leaves the graph unchanged (given no ON CREATE / ON MATCH items and no NaN in the pattern; the NaN case is refuted by a witness), the SET/REMOVE algebra (SET then REMOVE = REMOVE, SET null = REMOVE, SET = map keeps exactly the map's non-null keys, += {} is the identity, read-back laws), CREATE adds exactly the counted nodes and changes nothing else, DELETE fails iff a target has a relationship, DETACH DELETE never fails, no relationship of a deleted node remains. Implementation = reference (graph dump and count after every statement of generated sequences) is the sampled part. MERGE with ON CREATE / ON MATCH items on keys disjoint from the pattern keys is proved to create nothing when repeated (any number of rows). Relationship MERGE is refuted as non-idempotent when rows of one statement merge different maps on one key (K-C12-relidentity, relationships have no identity); the harness repeats every generated MERGE and requires count 0 and unchanged sizes outside that class. One chain law is proved (SET n.k = v REMOVE n.k = REMOVE n.k); the other laws are proved per clause.",
         "design_ref": "DESIGN.md §5 C11/C12",
         "level_note": "Trusted: Coq kernel; the reference is tied to the code by sampled correspondence (not by proof); operands taken from the engine's own MATCH results.",
         "technique": "Rocq proof (list induction over rows, map algebra) + vm_compute replay of generated statement sequences + independent Rust reference graph",
